@@ -102,10 +102,13 @@ TEXTS = {
                  "deferred/dynamic/types/configured imports, acceptance logic of parse_module_source_and_info) is "
                  "compared on every run with the REAL builder on thousands of generated worlds: full structural "
                  "equality of entries, structured errors with referrers, redirects, dependency lists, loader calls. "
-                 "Theorems so far: at most one entry per specifier, no pending entry after a build, recorded "
-                 "dependencies are the parser's declaration adjusted only by graph kind. The two-sided closure theorem "
-                 "is not yet proved: PARTIAL; closure is decided per case through the model equality and through "
-                 "C15/C02 on real graphs."),
+                 "Proved for every world, graph kind and option set (C01_complete, by an invariant over every step "
+                 "of the build loop): after a completed build nothing reachable is absent - every root, configured "
+                 "import target and followed dependency target of every module entry is settled (following recorded "
+                 "redirects reaches an entry). Also: at most one entry per specifier, no pending entry, recorded "
+                 "dependencies are the parser's declaration adjusted only by graph kind. The converse (nothing "
+                 "unreachable is present) is not yet proved: PARTIAL; decided per case through the model equality and "
+                 "through C15/C02 on real graphs."),
         "design_ref": "DESIGN.md section 5 C01",
         "note": ("Trusted: Coq kernel; extraction; the harness's world abstraction (each module's declaration comes "
                  "from the real parse_module; media types from the real header resolution; interning). Not modelled in "
